@@ -289,6 +289,8 @@ def gotran_to_myokit(ode: ODE, time_component="engine", time_unit="s") -> myokit
             var = comp.add_variable(state.name)
             var.set_unit(to_myokit_unit(state.unit_str))
             global_var_map[state.name] = sp.Symbol(var.qname())
+            # The derivative can be referenced by name from other expressions
+            global_var_map[state_derivative.name] = sp.Symbol(f"dot({var.qname()})")
 
         for parameter in component.parameters:
             var = comp.add_variable(parameter.name)
